@@ -383,6 +383,19 @@ func c16Execute(c *ctx, bin string, r c16Run) {
 		}
 		evs = parseStrace(string(b))
 		c.count("syscalls_observed", int64(len(evs)))
+		// every injected failure must have been understood, otherwise the run cannot be judged
+		parsedInj := 0
+		for _, e := range evs {
+			if e.Inject {
+				parsedInj++
+			}
+		}
+		if raw := strings.Count(string(b), "(INJECTED)"); raw != parsedInj {
+			c.masked()
+			c.count("runs_with_an_injected_call_the_log_parser_could_not_attribute", 1)
+			c.note("unattributed injected call in: %s", firstLines(grepLines(string(b), "INJECTED"), 3))
+			return
+		}
 	}
 	desc := map[string]any{"args": args, "input": r.fileKind, "out": r.outKind, "package_dir_before": r.pkgPre, "inject": r.inject}
 	bad := func(obs, exp string) {
@@ -635,7 +648,7 @@ func runC16(c *ctx) {
 		}
 	}
 	// (C) names
-	names := []string{"a", "calc2", "Calc", "my_pkg", "_x", "x_", "_", "__", "9lives", "a-b", "a.b", "a b", "func", "type", "package", "int", "string", "nil", "true", "len", "append", "error", "any", "iota", "main", "init", "π", "héllo", "a/b", "../escape", ".", "..", "a\tb", "x9"}
+	names := []string{"a", "calc2", "Calc", "my_pkg", "_x", "x_", "_", "__", "9lives", "a-b", "a.b", "a b", "func", "type", "package", "int", "string", "nil", "true", "len", "append", "error", "any", "iota", "main", "init", "π", "héllo", "x²", "v½", "n①", "aⅧ", "m³s", "a٣", "ａｂ", "a\u0301", "a😀", "a\u200d", "٣a", "a/b", "../escape", ".", "..", "a\tb", "x9"}
 	for i, n := range names {
 		add(c16Run{name: fmt.Sprintf("name%d/%q", i, n), text: c16Valid, fileKind: "valid", pkgName: n, outKind: "ok", pkgPre: "none", useTrace: true})
 	}
@@ -687,3 +700,13 @@ func runC16(c *ctx) {
 
 func isUnicodeLetter(r rune) bool { return unicode.IsLetter(r) }
 func isUnicodeDigit(r rune) bool  { return unicode.Is(unicode.Nd, r) }
+
+func grepLines(s, sub string) string {
+	var out []string
+	for _, l := range strings.Split(s, "\n") {
+		if strings.Contains(l, sub) {
+			out = append(out, l)
+		}
+	}
+	return strings.Join(out, "\n")
+}
